@@ -70,4 +70,90 @@ PROPS["C15"] = {
     "thorough": {"jobs": [rapid_job("selection", "^TestC15Selection$", 20000, shards=16), rapid_job("known", "^TestC15KnownStale$", 1)]},
 }
 
+SM_NOTE = "Histories are sampled, not enumerated: 1-8 nodes, up to 3-4 replica sets, up to ~45 (quick) / ~90 (thorough) generated actions; reconciles run one at a time against a linearizable in-memory store (any reconcile may run at any time, requeue hints are ignored)."
+
+PROPS["C01"] = {
+    "title": "At most one daemon pod per node, and only on eligible nodes",
+    "level": "exploration",
+    "level_text": "Stateful property test: generated histories interleave the real EDS/replica-set reconcilers with kubelet, scheduler, user and node actions (incl. duplicate pods, Failed/Unknown phases, taints, relabels, eligibility-changing templates, canaries); after every reconcile the pod Creates/Deletes it issued are judged against the state it read by an independent eligibility/keeper oracle (no create on absent/unfit/occupied node, never two per node per sync, duplicates resolved to the scheduled-oldest pod, pods on ineligible nodes deleted, Unknown pods untouched). A function-level differential test drives FilterAndMapPodsByNode and CheckNodeFitness with generated nodes, templates and pod multisets against the same oracle, and a native fuzz target covers the eligibility predicate.",
+    "level_note": SM_NOTE + " Failed pods inside their deletion back-off may or may not count among the pods of a node (statement readable both ways); reads are linearizable (informer staleness is outside the statement's 'state it read').",
+    "technique": "stateful property-based testing (rapid) with per-step invariants + differential testing against a reference eligibility model + native go fuzz",
+    "quick": {"jobs": [rapid_job("sm", "^TestC01SM$", 750, shards=4)]},
+    "thorough": {"jobs": [rapid_job("sm", "^TestC01SM$", 800, shards=16, timeout="50m")]},
+}
+
+PROPS["C02"] = {
+    "title": "Reconciliation converges to one Ready live-template pod per eligible node",
+    "level": "exploration",
+    "level_text": "Stateful property test: a generated history (template edits incl. several in a row, annotation flips, node churn, pod failures, duplicates, partial rollouts, controller restarts; strategy from the convergent sub-lattice with or without canary) is followed by a stabilisation phase that establishes the statement's premises (annotations removed, canary resolved by validation / failure / waiting, API calls succeed, kubelet makes pods Ready, fair rounds in generated orders); the oracle demands a quiet round within a bound, the fixpoint predicate (one Ready live-hash pod per eligible node, nothing else, active set = spec.template, no canary left) and three further quiet rounds.",
+    "level_note": SM_NOTE + " 'Every fair order' is sampled. The bound (60+8N rounds) is deliberately generous: a livelock fails any bound; requeue timers are not modelled, so a bug that only forgets to requeue is invisible.",
+    "technique": "stateful property-based testing (rapid): generated history + stabilisation + fixpoint/convergence oracle",
+    "quick": {"jobs": [rapid_job("sm", "^TestC02SM$", 500, shards=4)]},
+    "thorough": {"jobs": [rapid_job("sm", "^TestC02SM$", 600, shards=16, timeout="50m")]},
+}
+
+PROPS["C04"] = {
+    "title": "Canary blast radius: the new template runs only on the selected canary nodes",
+    "level": "exploration",
+    "level_text": "Stateful property test biased to canaries (strategy always has a canary block, replicas as number or percent, second template edit during a canary, eligibility-changing templates, node churn, pause/valid annotations, every interleaving of the EDS reconcile with active/canary/leftover syncs, each sync also on store forks); after every reconcile: non-active sets create only on status.canary.nodes (unknown role: nothing), the active set neither creates nor deletes on canary nodes, no canary/leftover sync deletes the pod serving a non-canary node that is eligible for the active template, the node list never grows beyond the resolved replicas, canary label present during / absent after the canary.",
+    "level_note": SM_NOTE,
+    "technique": "stateful property-based testing (rapid) with per-step invariants over (state read, calls issued)",
+    "quick": {"jobs": [rapid_job("sm", "^TestC04SM$", 750, shards=4)]},
+    "thorough": {"jobs": [rapid_job("sm", "^TestC04SM$", 800, shards=16, timeout="50m")]},
+}
+
+PROPS["C08"] = {
+    "title": "Pause and freeze annotations stop exactly what they promise to stop",
+    "level": "exploration",
+    "level_text": "Stateful property test in which the four annotations are set, flipped and removed (true/false/absent/garbage) in generated order over rollouts in progress; after every sync: no update-deletion under rolling-update-paused, no create and no update-deletion under rollout-frozen, creation still happens under pause when nothing else gates it, no canary pod created in a sync that is or ends paused/failed, time never promotes a paused canary, status.state/reason agree with annotations and canary facts; afterwards the annotations are removed (canary unpaused/validated) and the history must converge (resume).",
+    "level_note": SM_NOTE,
+    "technique": "stateful property-based testing (rapid) with per-step invariants + convergence oracle for 'resume'",
+    "quick": {"jobs": [rapid_job("sm", "^TestC08SM$", 500, shards=4)]},
+    "thorough": {"jobs": [rapid_job("sm", "^TestC08SM$", 600, shards=16, timeout="50m")]},
+}
+
+PROPS["C09"] = {
+    "title": "Pod creation is rate limited by slow start and syncs are spaced",
+    "level": "exploration",
+    "level_text": "Stateful property test on the virtual clock: reconcile requests arrive at generated instants (sub-second to minutes apart, so the one-second truncation of stored timestamps is exercised); after every active sync the number of pod Creates is compared with min(maxParallelPodCreation, (1+floor(t/interval))*increase) computed in big integers from the state read, update-deletions with maxUnavailable, and two write-issuing syncs of one replica set must be >= reconcileFrequency-1s apart when the first status write succeeded.",
+    "level_note": SM_NOTE + " t is measured from the Active condition's stored (second-truncated) transition time, one extra second of slack is granted.",
+    "technique": "stateful property-based testing (rapid) on a virtual clock with a reference ramp formula",
+    "quick": {"jobs": [rapid_job("sm", "^TestC09SM$", 750, shards=4)]},
+    "thorough": {"jobs": [rapid_job("sm", "^TestC09SM$", 800, shards=16, timeout="50m")]},
+}
+
+PROPS["C12"] = {
+    "title": "An ExtendedDaemonSet only ever touches its own objects",
+    "level": "exploration",
+    "level_text": "Stateful property test over a population of two ExtendedDaemonSets (same name in another namespace, or another name in the same namespace), foreign pods carrying a matching name label in a third namespace and unlabelled pods in the EDS namespace; every write of every reconcile (Create/Update/Patch/Delete/status) must target the reconciling EDS, one of its own replica sets, its PodTemplate or a pod of its namespace with its name label; the recorded active/canary replica set must be an own one; at quiescence status.current equals the number of own pods and the foreign pods are untouched.",
+    "level_note": SM_NOTE,
+    "technique": "stateful property-based testing (rapid) with a per-call ownership invariant",
+    "quick": {"jobs": [rapid_job("sm", "^TestC12SM$", 500, shards=4)]},
+    "thorough": {"jobs": [rapid_job("sm", "^TestC12SM$", 600, shards=16, timeout="50m")]},
+}
+
+PROPS["C13"] = {
+    "title": "One replica set per template, faithful to it, never collected while in use",
+    "level": "exploration",
+    "level_text": "Stateful property test over template-edit words on a small alphabet (A->B->A, A->B->C, edits during a canary) with all reconcilers interleaved: no replica set is created while one with the same template hash exists; a created set's template, hash annotation and templateGeneration equal spec.template and its MD5; every created pod carries its creator's hash; a replica-set Delete never hits the set that is active or matches spec.template after the reconcile, only sets whose status as read is all zero, and a failed canary not before two minutes; the PodTemplate equals spec.template and its hash after its reconcile.",
+    "level_note": SM_NOTE,
+    "technique": "stateful property-based testing (rapid) with per-step invariants; template hash recomputed independently (MD5 of the JSON rendering)",
+    "quick": {"jobs": [rapid_job("sm", "^TestC13SM$", 750, shards=4)]},
+    "thorough": {"jobs": [rapid_job("sm", "^TestC13SM$", 800, shards=16, timeout="50m")]},
+}
+
+PROPS["C14"] = {
+    "title": "Status tells the truth about replica sets and pods",
+    "level": "exploration",
+    "level_text": "Stateful property test: after every successful EDS reconcile the stored status is compared with a reference implementation of the documented status function applied to the replica-set statuses that reconcile read (sums, desired/upToDate from active and canary set, state, reason, Canary-Paused/Canary-Failed conditions); after every active/canary sync 0<=available<=ready<=current<=desired; after stabilisation the counters are compared with the pods and nodes that exist.",
+    "level_note": SM_NOTE,
+    "technique": "stateful property-based testing (rapid) against a reference status function + quiescent-state oracle",
+    "quick": {"jobs": [rapid_job("sm", "^TestC14SM$", 500, shards=4)]},
+    "thorough": {"jobs": [rapid_job("sm", "^TestC14SM$", 600, shards=16, timeout="50m")]},
+}
+
+PROPS["C03"]["quick"]["jobs"].append(rapid_job("sm", "^TestC09SM$", 60, shards=2))
+PROPS["C15"]["quick"]["jobs"].append(rapid_job("sm", "^TestC15SM$", 150, shards=2))
+PROPS["C15"]["thorough"]["jobs"].append(rapid_job("sm", "^TestC15SM$", 800, shards=8, timeout="50m"))
+
 NOT_APPLICABLE = {}
